@@ -6,7 +6,11 @@
   C20.FAN    the fan-out function sends one Sample(message timestamp, extractor(message)) to every sender
              of every (extractor, senders) pair; pairs are built from one (metric, requests) item.
   C20.ATOM   between binding a message from the API receiver and create_task(fan_out(msg)) there
-             is no await; the fan-out task is a plain task, not owned by the cancellable stream task.
+             is no await; the fan-out task is a plain task, not owned by the cancellable stream task, and
+             what it works with outlives the stream task: on no way out of the message loop (end of the
+             API stream, error, cancellation by a new subscription - `finally:` bodies and handlers
+             included) are the pair's senders / the channels closed or the pairs emptied before the
+             fan-out tasks in flight have been awaited.
   C20.ONCE   API receivers are created only when absent and never removed or replaced; stream tasks
              are written only in _update_streams after cancelling the previous one and never
              removed elsewhere.
@@ -40,8 +44,8 @@ from ..engine.normalize import ANCHOR_NAMES, inline_helpers
 from ..engine.report import AnalysisError, Run
 from ..engine.resolver import ClassInfo, FuncInfo, Program, parent_map
 from ..engine.util import canon, node_writes, nodes_with_call, u
-from ._c20_util import (Expander, bind_call, branch, calls_where, const_bool, cpath, enum_paths, equal_fact, expand_at,
-                        params_of, presence, rename_and_bind, result_expr, slot_reads, splice_procedures, splice_value_calls, subst_names, walk_own)
+from ._c20_util import (Expander, bind_call, branch, calls_where, const_bool, cpath, derived_names, enum_paths, equal_fact,
+                        expand_at, mentions, params_of, presence, rename_and_bind, result_expr, slot_reads, splice_procedures, splice_value_calls, subst_names, walk_own)
 
 SRC = "microgrid._data_sourcing.microgrid_api_source"
 API = f"{SRC}:MicrogridApiSource"
@@ -432,6 +436,7 @@ class Stream:
             raise AnalysisError(f"{hs.qual}: message loop not found in the CFG")
         self.head = heads[0]
         self.build_nodes: list[int] = []  # set by check_fan: where the pairs variable is built
+        self.pair_vars: set[str] = set()  # set by check_fan: the pairs variable and its plain local aliases
         # the fan-out function: the nested closure or private method called with the message
         nested = {n.name: n for n in ast.walk(hs.node) if isinstance(n, (ast.FunctionDef, ast.AsyncFunctionDef)) and n is not hs.node}
         self.fan_calls: list[tuple[ast.Call, FuncInfo, dict[str, ast.AST]]] = []
@@ -687,6 +692,7 @@ def check_fan(run: Run, prog: Program, st: Stream) -> None:
             raw = bind_call(v, gs.params[1:]) if isinstance(v, ast.Call) else None
             aliased = aliased or raw is None or u(raw[gs.params[2]]) != subs_here
         ok = ok and built >= 1
+        st.pair_vars = set(pair_vars)
         if ok and aliased and hs.cls is not None and not _subs_stable(hs.cls):
             ok = False  # an alias taken earlier may be stale once the per-component dict can be replaced
     run.check(ok, "C20.FAN", hs.qual, "stream_senders built from this component's subscriptions",
@@ -839,6 +845,7 @@ def check_atom(run: Run, prog: Program, st: Stream) -> None:
               "when the API stream ends, the channels are closed while fan-out tasks of the last messages may not "
               "have sent yet: those messages are lost for every stream", node=hs.node, file=hs.file,
               path=cfg.describe_path(wit))
+    _check_outlives(run, prog, st, hand, closes, join_nodes, nothing_in_flight)
     us = st.ro.us
     run.analysed(us.qual)
     reg = Registration(prog, st.ro)
@@ -847,6 +854,114 @@ def check_atom(run: Run, prog: Program, st: Stream) -> None:
     ok = len(cancels) == 1 and x.x(cancels[0].func.value) in (f"{TASKS}[{k}]", f"{TASKS}.get({k})")  # type: ignore[union-attr]
     run.check(ok, "C20.ATOM", us.qual, "only the component's stream task is cancelled",
               "updating the streams cancels something other than the component's stream task", node=us.node, file=us.file)
+
+
+SENDER_CLOSERS = {"aclose", "close"}
+PAIR_EMPTIERS = {"clear", "pop", "remove", "__delitem__", "__setitem__"}
+
+
+def _check_outlives(run: Run, prog: Program, st: Stream, hand: list[int], closes_channels: Any, join_nodes: list[int],
+                    nothing_in_flight: set[tuple[int, str | None]]) -> None:
+    """The fan-out task is independent of the stream task (so that cancelling the stream task for a new
+    subscription cannot drop a message already taken from the API receiver) - that only holds if what the
+    fan-out task works with stays usable until the task is done.  From the hand-over of a message on, over
+    *every* edge (normal, error, cancellation; `finally:` bodies are instantiated per way of reaching them), no
+    statement of the stream task may close a sender of the pairs, close the channels, or empty / rebind the pairs
+    the fan-out reads, unless the pool of fan-out tasks has been awaited in between (normal edge out of a
+    gather / wait of the pool) or is known to be empty."""
+    hs, cfg = st.hs, st.cfg
+    pair_vars = st.pair_vars
+    own = list(walk_own(hs.node))
+    tainted = derived_names(own, pair_vars)
+    nested = {n.name: n for n in ast.walk(hs.node) if isinstance(n, (ast.FunctionDef, ast.AsyncFunctionDef)) and n is not hs.node}
+    closure_reads = any(f.outer is not None and any(isinstance(n, ast.Name) and n.id in pair_vars for n in ast.walk(f.node))
+                        for _c, f, _b in st.fan_calls)
+
+    def closes_sender(c: ast.Call, taint: set[str], depth: int = 0) -> bool:
+        f = c.func
+        if isinstance(f, ast.Attribute) and f.attr in SENDER_CLOSERS and mentions(f.value, taint):
+            return True
+        if depth >= 2 or not taint:
+            return False
+        node: Any = None
+        ps: list[str] = []
+        free: set[str] = set()
+        if isinstance(f, ast.Name) and f.id in nested:
+            node, ps, free = nested[f.id], params_of(nested[f.id]), set(taint)
+        elif _is_self_call(c) and hs.cls is not None:
+            m = prog.resolve_method(hs.cls, f.attr)  # type: ignore[union-attr]
+            if m is not None:
+                node, ps = m.node, _call_params(m)
+        elif isinstance(f, ast.Name) and f.id in hs.module.functions:
+            m = hs.module.functions[f.id]
+            node, ps = m.node, m.params
+        if node is None or any(node is fn.node for _c, fn, _b in st.fan_calls):
+            return False
+        b = bind_call(c, ps) or {}
+        seed = {p_ for p_, a in b.items() if mentions(a, taint)} | (free - set(ps))
+        if not seed:
+            return False
+        body = list(walk_own(node))
+        inner = derived_names(body, seed)
+        return any(isinstance(k, ast.Call) and closes_sender(k, inner, depth + 1) for k in body)
+
+    def invalidates(nid: int) -> str | None:
+        n = cfg.nodes[nid]
+        if n.ast is None or n.kind == "handler" or isinstance(n.ast, (ast.FunctionDef, ast.AsyncFunctionDef, ast.ClassDef)):
+            return None
+        for part in own_parts(n):
+            for c in [part, *walk_own(part)]:
+                if not isinstance(c, ast.Call):
+                    continue
+                if closes_channels(c):
+                    return "closes the channels of the component's streams"
+                if closes_sender(c, tainted):
+                    return "closes a sender of the pairs the fan-out sends on"
+                if isinstance(c.func, ast.Attribute) and c.func.attr in PAIR_EMPTIERS and isinstance(c.func.value, ast.Name) \
+                        and c.func.value.id in pair_vars:
+                    return "empties the pairs the fan-out iterates"
+        if n.kind == "stmt" and isinstance(n.ast, ast.Delete) and any(mentions(t, pair_vars) for t in n.ast.targets):
+            return "deletes (from) the pairs the fan-out iterates"
+        if nid not in st.build_nodes:
+            for w in node_writes(cfg, nid):
+                if isinstance(w, ast.Name) and w.id in pair_vars and closure_reads and n.kind == "stmt":
+                    return "rebinds the pairs variable the fan-out closure reads when it runs"
+                if isinstance(w, ast.Subscript) and isinstance(w.value, ast.Name) and w.value.id in pair_vars:
+                    return "overwrites an entry of the pairs the fan-out iterates"
+        return None
+
+    bad = {n.id: why for n in cfg.nodes for why in [invalidates(n.id)] if why}
+    starts = [m for h_ in hand for m, lab in cfg.succ[h_] if _normal(h_, m, lab)]
+    joined = set(join_nodes)
+
+    def still_in_flight(a: int, b: int, lab: str) -> bool:
+        # a completed join (normal edge out of it) and the "pool is empty" side of a test end the obligation
+        return not (a in joined and _normal(a, b, lab)) and (a, lab) not in nothing_in_flight
+
+    wit = None
+    for only in ("exc:C", "exc:E", ""):  # (the witness shown is the cancellation by a new subscription when there is one)
+        for s0 in starts:
+            wit = wit or (cfg.path(s0, list(bad), edge_ok=lambda a, b, lab, only=only: still_in_flight(a, b, lab) and (
+                not lab.startswith("exc:") or not only or lab == only)) if bad else None)
+    what = ""
+    how = ""
+    if wit:
+        end = wit[-1][0]
+        what = f"`{cfg.nodes[end].text(70)}` (line {cfg.nodes[end].lineno}) {bad[end]}"
+        kinds = [lab for _n, lab in wit if lab.startswith("exc:")]
+        how = {"exc:C": "when the stream task is cancelled (a new subscription for the component: _update_streams cancels it)",
+               "exc:E": "when an error ends the stream task (run_forever restarts it)",
+               "exc:B": "when a BaseException ends the stream task"}.get(kinds[0], "") if kinds else "when the API stream ends"
+    run.check(bool(hand) and wit is None, "C20.ATOM", hs.qual,
+              "what a fan-out task in flight works with (the pairs, their senders, the channels) is left alone until the task was awaited",
+              f"{what} {how} while fan-out tasks of messages already taken from the API receiver may not have sent yet: the fan-out "
+              "runs as a task of its own precisely so that ending the stream task cannot drop a message in flight, but its "
+              "sends then fail (SenderClosedError / closed channel) or find nothing to send to, and that sample never reaches "
+              "the existing subscriptions (the successor task does not see the message again, it was consumed) - the same for a "
+              "`finally:` / `except CancelledError:` that closes the old senders, closes the channels, or clears / rebinds the "
+              "pairs; await the pool of fan-out tasks first, or leave the senders to the garbage collector",
+              node=cfg.nodes[wit[-1][0]].ast if wit else hs.node, file=hs.file, path=cfg.describe_path(wit),
+              instance=f"{hs.qual} :: senders / channels / pairs untouched while fan-out tasks are in flight")
 
 
 # ======================================================================================== C20.ONCE
@@ -1875,6 +1990,41 @@ CONTROLS = [
 ]
 
 
+_STREAM_TAIL = "                category.name,\n            )\n            raise\n"  # end of the stream coroutine's outer try
+
+
+def build_controls(prog: Program) -> list[tuple[str, str, str, str, str]]:
+    """CONTROLS plus the variants that have to name locals of the stream coroutine (the pairs variable, the
+    component parameter): their text is written with the names the roles are bound to on this tree, so a renaming
+    does not blunt them.  They are added only when the coroutine that holds the anchor binds the pairs variable
+    itself (when the set-up lives in a helper there is no name to write the variant with)."""
+    out = list(CONTROLS)
+    try:
+        ro = Roles(prog)
+        st = Stream(prog, ro)
+        _ok, _why, pairs = _fanout_ok(st)
+    except AnalysisError:
+        return out
+    src = (ast.get_source_segment(ro.hs.module.source, ro.hs.node) or "") + "\n"
+    bound = pairs is not None and any(isinstance(n, ast.Name) and isinstance(n.ctx, ast.Store) and n.id == pairs
+                                      for n in walk_own(ro.hs.node))
+    if not bound or _STREAM_TAIL not in src or ro.hs.module.source.count(_STREAM_TAIL) != 1:
+        return out
+    comp = st.comp_p
+    out += [
+        ("old senders closed in a finally of the stream task (also runs on cancellation)", SRC, _STREAM_TAIL,
+         _STREAM_TAIL + f"        finally:\n            for _, old_senders_ in {pairs}:\n                for old_sender_ in old_senders_:\n"
+         "                    await old_sender_.aclose()\n", "C20.ATOM"),
+        ("pairs cleared when the stream task is cancelled", SRC, _STREAM_TAIL,
+         _STREAM_TAIL + f"        except asyncio.CancelledError:\n            {pairs}.clear()\n            raise\n", "C20.ATOM"),
+        ("channels closed in a finally of the stream task", SRC, _STREAM_TAIL,
+         _STREAM_TAIL + f"        finally:\n            for reqs_ in self._req_streaming_metrics[{comp}].values():\n"
+         "                for req_ in reqs_:\n                    await self._registry.close_and_remove(req_.get_channel_name())\n",
+         "C20.ATOM"),
+    ]
+    return out
+
+
 def run_rules(run: Run, prog: Program) -> None:
     ro = Roles(prog)
     check_tab(run, prog, ro)
@@ -1898,12 +2048,12 @@ def check(run: Run, prog: Program, tier: str) -> str:
     run.floor("C20.REQ", 1)
     run.floor("C20.TAB", 55)
     run.floor("C20.FAN", 5)
-    run.floor("C20.ATOM", 4)
+    run.floor("C20.ATOM", 5)
     run.floor("C20.ONCE", 9)
     run.floor("C20.DEDUP", 8)
     from ..engine.controls import run_controls
 
-    run_controls(run, CONTROLS, run_rules, tier)
+    run_controls(run, build_controls(prog), run_rules, tier)
     run.assume("asyncio cancellation is delivered only at awaits; a cancelled stream task that holds no "
                "un-handed-over message loses nothing because the API receiver is kept")
     run.undecided("relative order of the fan-out tasks of consecutive messages (event-loop scheduling); "
